@@ -687,6 +687,53 @@ example : CustomInline.decide { imports := [("", 12), ("my.domain", 2)], nodeDom
 example : CustomInline.decide { imports := [("", 12)], nodeDomains := [""] } 19 = .convert 12 19 := by decide
 example : CustomInline.decide { imports := [("", 12), ("my.domain", 2)], nodeDomains := ["my.domain"] } 19 = .keep := by decide
 
+/-- **init_constants_shape.** `_initializers_to_constants`: the result has no initializers left unless
+    nothing had to be rewritten, its nodes are the Constant nodes of the initializers that are not
+    graph inputs (in order) followed by the original nodes, unchanged and in order. -/
+theorem init_constants_shape {ν : Type} (mkConst : String → ν) (g : ConvGraph ν) :
+    (initializersToConstants mkConst g).nodes =
+      (g.initializers.filter (fun n => !g.inputs.contains n)).map mkConst ++ g.nodes ∧
+    (g.initializers.filter (fun n => !g.inputs.contains n) ≠ [] →
+      (initializersToConstants mkConst g).initializers = []) := by
+  unfold initializersToConstants
+  cases h : g.initializers.filter (fun n => !g.inputs.contains n) with
+  | nil => simp
+  | cons c cs => simp
+
+/-- **adapt_nodes_keep_foreign.** Whatever `adapt_inline` decides, and whatever initializers the
+    conversion introduces: the nodes of other domains in its result are exactly those of the inlined
+    model, verbatim and in order (the converter's rewrites and the added `Constant` nodes are
+    default-domain). -/
+theorem adapt_nodes_keep_foreign {ν : Type} (dom : ν → String) (conv : ν → List ν)
+    (mkConst : String → ν) (d : Decision) (inputs inits : List String) (nodes : List ν)
+    (hc : ∀ n, ∀ x ∈ conv n, isDefault (dom x) = true) (hk : ∀ n, isDefault (dom (mkConst n)) = true) :
+    (adaptNodes dom conv mkConst d inputs inits nodes).filter (fun n => !isDefault (dom n)) =
+      nodes.filter (fun n => !isDefault (dom n)) := by
+  cases d with
+  | keep => rfl
+  | convert s t =>
+    simp only [adaptNodes, (init_constants_shape mkConst _).1, List.filter_append]
+    have : ((inits.filter (fun n => !inputs.contains n)).map mkConst).filter (fun n => !isDefault (dom n)) = [] := by
+      apply List.filter_eq_nil_iff.mpr
+      intro x hx
+      obtain ⟨n, _, rfl⟩ := List.mem_map.mp hx
+      simp [hk n]
+    rw [this, List.nil_append]
+    exact convert_keeps_foreign dom conv nodes hc
+
+example : (initializersToConstants (fun n => "Constant:" ++ n)
+    { inputs := ["X"], initializers := ["pads", "X"], nodes := ["Pad", "my.domain::Op"] }).nodes
+    = ["Constant:pads", "Pad", "my.domain::Op"] := by decide
+example : (initializersToConstants (fun n => "Constant:" ++ n)
+    { inputs := ["X"], initializers := [], nodes := ["Relu"] }).nodes = ["Relu"] := by decide
+
+/-- **adapt_inline_calls_covered** (tie G). The calls `adapt_inline` makes, as read from the source on this
+    run, are the ones the model has a counterpart for (`decide`, `convertNodes`, `initializersToConstants`,
+    re-emission): a further processing step added to it breaks this obligation. -/
+theorem adapt_inline_calls_covered :
+    (Generated.AdaptAttrInventory.adaptFunctions.filter (fun f => f.1 == "adapt_inline")).map (·.2.2.2) =
+      [CustomInline.coveredInlineCalls] := by decide +kernel
+
 /-- **adapt_exits_covered** (tie G). The exits of `adapt_inline`, as read from `src/spox/_adapt.py` on this
     run, are exactly the three branches `CustomInline.decide` has: an added early exit — whatever its
     condition, whatever inputs the oracles generate — breaks this obligation. -/
